@@ -184,6 +184,9 @@ def eventauth__accumulateStateNeeded : List String := [
   "if content.Membership == spec.Join || content.Membership == spec.Knock || content.Membership == spec.Invite {",
   "result.JoinRules = true",
   "}",
+  "if content.AuthorizedVia != \"\" {",
+  "result.Member = append(result.Member, content.AuthorizedVia)",
+  "}",
   "if content.ThirdPartyInvite != nil {",
   "token, tokErr := thirdPartyInviteToken(content.ThirdPartyInvite)",
   "if tokErr != nil {",
@@ -191,9 +194,6 @@ def eventauth__accumulateStateNeeded : List String := [
   "return",
   "}",
   "result.ThirdPartyInvite = append(result.ThirdPartyInvite, token)",
-  "}",
-  "if content.AuthorizedVia != \"\" {",
-  "result.Member = append(result.Member, content.AuthorizedVia)",
   "}",
   "default:",
   "result.Create = true",
@@ -475,7 +475,11 @@ def eventauth_allowerContext_newMembershipAllower : List String := [
   "return",
   "}",
   "if m.newMember.ThirdPartyInvite != nil && m.newMember.Membership == spec.Invite {",
-  "token := m.newMember.ThirdPartyInvite.Signed.Token",
+  "var token string",
+  "if token, err = thirdPartyInviteToken(m.newMember.ThirdPartyInvite); err != nil {",
+  "err = errorf(\"could not get third-party token: %s\", err)",
+  "return",
+  "}",
   "if m.thirdPartyInvite, err = NewThirdPartyInviteContentFromAuthEvents(authEvents, token); err != nil {",
   "return",
   "}",
